@@ -218,17 +218,20 @@ Definition grun (ops : list op) : state * list crec := grun_from (init, []) ops.
 (* ---- correspondence ----------------------------------------------------
    One case = an operation sequence and, after every operation, what the
    implementation returned, current_version, and for every transaction id in
-   1..k (k fixed per case) the table entry (isolation, status, start, commit
-   version, sorted write sets) together with the version of the probe node
+   1..k (k fixed per case) its status code in the table (0 = not in the table,
+   1 Active, 2 Committed, 3 Aborted) and the version of the probe node
    get_node_for_txn returned (the probe has one version per store version, so
-   this is the read version), or None when the id is not in the table. *)
-(* (monomorphic constructors: large tuple/option literals are slow to elaborate) *)
+   this is the read version; 0 = no answer), each list packed into one number
+   (base 4, resp. base 256: the harness keeps versions below 256; id 1 is the
+   lowest digit).  At the end of the case the whole
+   table: isolation, status, start, commit version, sorted write sets.
+   (monomorphic constructors: large tuple/option literals are slow to elaborate) *)
 Inductive ov := NoV | V (v : N).
 Inductive tobs :=
 | NoT
-| T (i : iso) (st : status) (start : N) (commit : ov) (wn we : list N) (rv : N).
-Inductive obs := Ob (r : result) (c : N) (ts : list tobs).
-Inductive case := Case (k : N) (ops : list op) (os : list obs).
+| T (i : iso) (st : status) (start : N) (commit : ov) (wn we : list N).
+Inductive obs := Ob (r : result) (c : N) (sts rvs : N).
+Inductive case := Case (k : N) (ops : list op) (os : list obs) (final : list tobs).
 
 Definition iso_eqb (a b : iso) : bool :=
   match a, b with RC, RC | SI, SI => true | _, _ => false end.
@@ -257,22 +260,31 @@ Definition ov_eqb (a b : ov) : bool :=
   end.
 
 Definition tobs_of (s : state) (t : N) : tobs :=
-  match lookup t (txns s), read_version s t with
-  | Some x, Some rv => T (t_iso x) (t_status x) (t_start x) (ov_of (t_commit x)) (t_wn x) (t_we x) rv
-  | _, _ => NoT
+  match lookup t (txns s) with
+  | Some x => T (t_iso x) (t_status x) (t_start x) (ov_of (t_commit x)) (t_wn x) (t_we x)
+  | None => NoT
   end.
 
 Definition tobs_eqb (a b : tobs) : bool :=
   match a, b with
   | NoT, NoT => true
-  | T i1 s1 b1 c1 wn1 we1 r1, T i2 s2 b2 c2 wn2 we2 r2 =>
+  | T i1 s1 b1 c1 wn1 we1, T i2 s2 b2 c2 wn2 we2 =>
       iso_eqb i1 i2 && status_eqb s1 s2 && N.eqb b1 b2 && ov_eqb c1 c2 &&
-      nlist_eqb wn1 wn2 && nlist_eqb we1 we2 && N.eqb r1 r2
+      nlist_eqb wn1 wn2 && nlist_eqb we1 we2
   | _, _ => false
   end.
 
+Definition status_code (s : state) (t : N) : N :=
+  match lookup t (txns s) with
+  | None => 0
+  | Some x => match t_status x with Active => 1 | Committed => 2 | Aborted => 3 end
+  end.
+
+Definition rv_code (s : state) (t : N) : N :=
+  match read_version s t with Some v => v | None => 0 end.
+
 Fixpoint ids_upto (k : nat) : list N :=
-  match k with O => [] | S k' => ids_upto k' ++ [N.of_nat k] end.
+  match k with 0%nat => [] | S k' => ids_upto k' ++ [N.of_nat k] end.
 
 Fixpoint all2 {A B} (f : A -> B -> bool) (a : list A) (b : list B) : bool :=
   match a, b with
@@ -281,21 +293,24 @@ Fixpoint all2 {A B} (f : A -> B -> bool) (a : list A) (b : list B) : bool :=
   | _, _ => false
   end.
 
-Definition obs_ok (k : N) (s : state) (res : result) (o : obs) : bool :=
+Fixpoint pack (base : N) (l : list N) : N :=
+  match l with [] => 0 | x :: r => x + base * pack base r end.
+
+Definition obs_ok (ids : list N) (s : state) (res : result) (o : obs) : bool :=
   match o with
-  | Ob r c ts =>
+  | Ob r c sts rvs =>
       result_eqb res r && N.eqb (cur s) c &&
-      all2 tobs_eqb (map (tobs_of s) (ids_upto (N.to_nat k))) ts
+      N.eqb (pack 4 (map (status_code s) ids)) sts && N.eqb (pack 256 (map (rv_code s) ids)) rvs
   end.
 
-Fixpoint check_from (k : N) (s : state) (ops : list op) (os : list obs) : bool :=
+Fixpoint check_from (ids : list N) (s : state) (ops : list op) (os : list obs) (final : list tobs) : bool :=
   match ops, os with
-  | [], [] => true
+  | [], [] => all2 tobs_eqb (map (tobs_of s) ids) final
   | o :: ops', ob :: os' =>
       let (s', res) := step s o in
-      obs_ok k s' res ob && check_from k s' ops' os'
+      obs_ok ids s' res ob && check_from ids s' ops' os' final
   | _, _ => false
   end.
 
 Definition check_case (c : case) : bool :=
-  match c with Case k ops os => check_from k init ops os end.
+  match c with Case k ops os final => check_from (ids_upto (N.to_nat k)) init ops os final end.
